@@ -39,22 +39,28 @@ func (s *Server) liveMonitor(conn net.Conn, rd *PipelineReader, msg *Message) er
 	s.monconnsMu.Lock()
 	conn.Write([]byte("+OK\r\n"))
 	s.monconnsMu.Unlock()
-	msgs, err := rd.ReadMessages()
-	if err != nil {
-		if err == io.EOF {
+	for {
+		// (a command may arrive in more than one packet)
+		msgs, err := rd.ReadMessages()
+		for _, msg := range msgs {
+			if len(msg.Args) == 1 && strings.ToLower(msg.Args[0]) == "quit" {
+				s.monconnsMu.Lock()
+				conn.Write([]byte("+OK\r\n"))
+				s.monconnsMu.Unlock()
+				return nil
+			}
+		}
+		if err != nil {
+			if err == io.EOF {
+				return nil
+			}
+			return err
+		}
+		if len(msgs) > 0 {
+			// any other command ends the session
 			return nil
 		}
-		return err
 	}
-	for _, msg := range msgs {
-		if len(msg.Args) == 1 && strings.ToLower(msg.Args[0]) == "quit" {
-			s.monconnsMu.Lock()
-			conn.Write([]byte("+OK\r\n"))
-			s.monconnsMu.Unlock()
-			return nil
-		}
-	}
-	return nil
 }
 
 // send messages to live MONITOR clients
